@@ -11,10 +11,19 @@
       node at the layerconfig path only by its final rename: at every exit other than
       the normal one — crash or fault at any operation index, any file-system error —
       every path except `<layerconfig>.new` holds what it held before; at the normal
-      exit the layerconfig holds exactly the complete new text.  Lifted to rebase.
+      exit the layerconfig holds exactly the complete new text.  Lifted to the three
+      rewriting commands as wholes, every exit (normal, error, injected fault, crash at any
+      operation index): rebase (crash_atomic_rebase), add (crash_atomic_add,
+      crash_atomic_add_own, crash_atomic_add_others, add_keeps_existing) and rename
+      (crash_atomic_rename_paths_partial, crash_atomic_rename_partial: every layerconfig —
+      of a child, of the renamed layer at its old or new place, of an unrelated layer — is
+      its complete previous or its complete new version; `_partial` for the explicit side
+      condition that the path is not at or below one of the two automatic export links).
 -/
 import Lc.Lemmas.LayerfileRW
 import Lc.Lemmas.WriteLayerFile
+import Lc.Lemmas.CrashAdd
+import Lc.Lemmas.CrashRename
 
 namespace Lc.Props.C11
 open Lc Lc.Layers Lc.Layerfile Lc.Lemmas.Runes Lc.Lemmas.LayerfileRW Lc.Lemmas.WriteLF
@@ -175,5 +184,254 @@ theorem crash_atomic_rebase (cfg : Config) (d : Defs) (name newbase : Bytes) (l 
     · left; intro p _; show Fs.get ((rebaseLayer cfg d name newbase).run.run w0).2.fs p = _; rw [h]
     · right; exact h
   · left; exact h.1
+
+/-! ### (3b) the whole `add` command -/
+
+open Lc.CrashAdd Lc.CrashRename Lc.LayerPaths Lc.FsMove Lc.RemoveLayer
+
+/-- **add, every exit, every path.**  `addLayer` started in ANY world (any tree, any crash
+    or fault index, pretending or not), whatever way it ends (normal return, error of any
+    kind, injected fault, crash at any operation): every path `p` other than the temporary
+    file `<new>/layerconfig.new` (and paths below it), the new base layer's `root/.bashrc`
+    and paths strictly below the new layerconfig
+      * holds exactly what it held before, or
+      * held nothing and is now a directory (the directories `add` creates), or
+      * is the new layer's layerconfig and holds exactly the complete new text: `render` of
+        the requested base with the import/export lists `Plan` determines from the initial
+        tree (configuration file / skeleton, else the parent's lists).
+    In particular no path ever holds an empty or truncated layerconfig text.  No hypothesis. -/
+theorem crash_atomic_add (cfg : Config) (d : Defs) (name base configFile : Bytes) (w0 : World) :
+    let w := ((addLayer cfg d name base configFile).run.run w0).2
+    let C := pathJoin [layerPath cfg name, b!"layerconfig"]
+    let B := pathJoin [pathJoin [pathJoin [layerPath cfg name, cfg.buildRoot], b!"root"], b!".bashrc"]
+    ∀ p, Fs.under (C ++ tmpSuffix) p = false → p ≠ B → (Fs.under C p = false ∨ p = C) →
+      Fs.get w.fs p = Fs.get w0.fs p ∨
+      (Fs.get w0.fs p = none ∧ Fs.get w.fs p = some .dir) ∨
+      (p = C ∧ ∃ cm ce, Plan cfg d base configFile w0.fs cm ce ∧
+        Fs.get w.fs p = some (.file (render (toLayerFile (newLayer cfg name base cm ce))))) := by
+  intro w C B p hT hB hC
+  rcases (addLayer_post cfg d name base configFile w0).2 p hT hB hC with h | h | ⟨hc, n, ⟨cm, ce, hpl, hn⟩, hg⟩
+  · exact Or.inl h
+  · exact Or.inr (Or.inl h)
+  · exact Or.inr (Or.inr ⟨hc, cm, ce, hpl, by rw [hg, hn]⟩)
+
+/-- the lists `Plan` admits are unique: "the complete new text" is one text -/
+theorem add_plan_unique (cfg : Config) (d : Defs) (base configFile : Bytes) (fs0 : Fs.Tree)
+    (cm ce cm' ce' : List NeededMount) (h : Plan cfg d base configFile fs0 cm ce)
+    (h' : Plan cfg d base configFile fs0 cm' ce') : cm = cm' ∧ ce = ce' :=
+  plan_unique cfg d base configFile fs0 cm ce cm' ce' h h'
+
+/-- **add: the new layerconfig is never observed partial.**  At every exit the new layer's
+    layerconfig path holds what it held before (nothing, normally), or a directory made where
+    nothing was, or the complete new text.  No hypothesis. -/
+theorem crash_atomic_add_own (cfg : Config) (d : Defs) (name base configFile : Bytes) (w0 : World) :
+    let w := ((addLayer cfg d name base configFile).run.run w0).2
+    let C := pathJoin [layerPath cfg name, b!"layerconfig"]
+    Fs.get w.fs C = Fs.get w0.fs C ∨ (Fs.get w0.fs C = none ∧ Fs.get w.fs C = some .dir) ∨
+    ∃ cm ce, Plan cfg d base configFile w0.fs cm ce ∧
+      Fs.get w.fs C = some (.file (render (toLayerFile (newLayer cfg name base cm ce)))) :=
+  add_own_layerconfig cfg d name base configFile w0
+
+/-- **add: no other layer's layerconfig changes.**  For every layer `k` lying where
+    `findLayers` puts layers (`Placed`: directory `<layerdirs>/<name>`, legal non-empty name —
+    established by `readLayerFiles`, see `readLayerFiles_placed`) under another name: at
+    every exit its layerconfig path holds what it held, or held nothing and is a directory. -/
+theorem crash_atomic_add_others (cfg : Config) (d : Defs) (name base configFile : Bytes) (w0 : World)
+    (k : Layer) (hk : Placed cfg k) (hne : k.name ≠ name) :
+    let w := ((addLayer cfg d name base configFile).run.run w0).2
+    Fs.get w.fs (layerconfigPath k) = Fs.get w0.fs (layerconfigPath k) ∨
+    (Fs.get w0.fs (layerconfigPath k) = none ∧ Fs.get w.fs (layerconfigPath k) = some .dir) :=
+  add_other_layerconfig cfg d name base configFile w0 k hk hne
+
+/-- in the property's words: an EXISTING layerconfig (anything at all at the path) of another
+    layer is found unchanged after `add`, however `add` ended -/
+theorem add_keeps_existing (cfg : Config) (d : Defs) (name base configFile : Bytes) (w0 : World)
+    (k : Layer) (hk : Placed cfg k) (hne : k.name ≠ name) (n : Fs.Node)
+    (hex : Fs.get w0.fs (layerconfigPath k) = some n) :
+    Fs.get ((addLayer cfg d name base configFile).run.run w0).2.fs (layerconfigPath k) = some n := by
+  rcases crash_atomic_add_others cfg d name base configFile w0 k hk hne with h | ⟨h, _⟩
+  · exact h.trans hex
+  · rw [hex] at h; cases h
+
+/-- what `findLayers` reads from a directory listing without an empty name is `Placed` -/
+theorem findLayers_placed (cfg : Config) (fs : Fs.Tree) (names : List Bytes) (hne : [] ∉ names) :
+    ∀ k ∈ readLayerFiles cfg fs names, Placed cfg k :=
+  readLayerFiles_placed cfg fs names hne
+
+/-- non-vacuity: `add n a` (lists copied from the parent `a`) with a crash at the fourth
+    operation — mkdir, open, write "base a", [crash before the import line]: the run ends
+    with the crash, the parent's layerconfig is untouched, the new layerconfig does not exist
+    yet and the temporary file is partial.  Without a crash the new layerconfig is complete. -/
+def exCfg : Config :=
+  { basepath := b!"/b", layerdirs := b!"/l", buildRoot := b!"build", binPkg := b!"pk",
+    generated := b!"gen", workdir := b!"work", upperdir := b!"upper", exportdirs := b!"/e",
+    exportBinPkg := b!"p", exportGenerated := b!"g" }
+def exParent : Layer :=
+  { name := b!"a", layerPath := b!"/l/a", cmounts := [⟨b!"/dev", b!"/dev", b!"rbind"⟩] }
+def exAddDefs : Defs := { layers := [exParent], order := [b!"a"] }
+def exAddWorld (crash : Option Nat) : World :=
+  { fs := [(b!"/", .dir), (b!"/l", .dir), (b!"/l/a", .dir),
+           (b!"/l/a/layerconfig", .file b!"import rbind /dev /dev\n")],
+    crashAt := crash }
+
+example : Placed exCfg exParent ∧ exParent.name ≠ b!"n" ∧
+    Fs.get (exAddWorld (some 4)).fs (layerconfigPath exParent) = some (.file b!"import rbind /dev /dev\n") := by
+  unfold Placed; decide
+
+example :
+    let r := (addLayer exCfg exAddDefs b!"n" b!"a" []).run.run (exAddWorld (some 4))
+    r.1.toBool = false ∧
+    Fs.get r.2.fs b!"/l/a/layerconfig" = some (.file b!"import rbind /dev /dev\n") ∧
+    Fs.get r.2.fs b!"/l/n" = some .dir ∧ Fs.get r.2.fs b!"/l/n/layerconfig" = none ∧
+    Fs.get r.2.fs b!"/l/n/layerconfig.new" = some (.file b!"base a\n\n") := by decide
+
+example :
+    let r := (addLayer exCfg exAddDefs b!"n" b!"a" []).run.run (exAddWorld none)
+    r.1.toBool = true ∧
+    Fs.get r.2.fs b!"/l/n/layerconfig" = some (.file b!"base a\n\nimport rbind /dev /dev\n") ∧
+    Fs.get r.2.fs b!"/l/n/layerconfig.new" = none := by decide
+
+example : Plan exCfg exAddDefs b!"a" [] (exAddWorld none).fs exParent.cmounts exParent.cexports := by
+  unfold Plan; exact ⟨exParent, by decide, rfl, rfl⟩
+
+/-! ### (3c) the whole `rename` command -/
+
+/-- **rename, every exit, every path.**  `renameLayer` started in ANY world (any tree, any
+    crash or fault index, pretending or not), whatever way it ends.  `l` is the layer being
+    renamed, lying where `findLayers` puts it (`Placed`).  Either
+      * the directory has not been moved: every path not at/below one of the two automatic
+        export links holds exactly what it held; or
+      * it has been moved: every admissible path `p` (`Excl`: not at/below an export link —
+        before and after the move —, not at/below a temporary file `<layerconfig>.new` of a
+        rewritten layer, not strictly below a rewritten layerconfig) holds exactly what
+        `getMoved` says — the initial tree seen through the move: below the new directory
+        what was below the old one, nothing below the old one, everything else as it was —
+        or `p` is the layerconfig of a rewritten layer (`Rewritten`: a child with `base`
+        set to the new name, the renamed layer in its new directory) and holds exactly that
+        layer's complete new text.
+    `_partial`: only for the export-link side condition inside `Excl` (layout assumption: the
+    export links are not ancestors of the paths spoken about; a link in the way is removed on
+    purpose).  That layer directories of different legal names are not nested and that
+    `<new>` is not `<old>` is PROVED from `Placed` and the name test (`Lemmas/LayerPaths`). -/
+theorem crash_atomic_rename_paths_partial (cfg : Config) (d : Defs) (oldname newname : Bytes)
+    (childOrder : List Bytes) (l : Layer) (w0 : World) (hl : findLayer d oldname = some l)
+    (hpl : Placed cfg l) :
+    let w := ((renameLayer cfg d oldname newname childOrder).run.run w0).2
+    (∀ p, (∀ m ∈ exPaths cfg l, Fs.under m p = false) → Fs.get w.fs p = Fs.get w0.fs p) ∨
+    (∀ p, Excl (exPaths cfg l) (Rewritten cfg d oldname newname l) l.layerPath (layerPath cfg newname) p →
+      Fs.get w.fs p = getMoved w0.fs l.layerPath (layerPath cfg newname) p ∨
+      ∃ k, Rewritten cfg d oldname newname l k ∧ p = layerconfigPath k ∧
+        Fs.get w.fs p = some (.file (render (toLayerFile k)))) := by
+  intro w
+  rcases renameLayer_post cfg d oldname newname childOrder l w0 hl hpl with h | h
+  · exact Or.inl h.2
+  · exact Or.inr h
+
+/-- **rename, every exit, layer by layer.**  `d` is a layer table as `findLayers` builds it
+    (every layer `Placed`, names unique), `l` the layer being renamed.  Whatever way
+    `renameLayer` ends — normal return, any error, injected fault, crash at ANY operation
+    index, in particular between the directory move and a rewrite, between two children, in
+    the middle of a write — either nothing but export links changed, or the directory was
+    moved and
+      * the renamed layer's layerconfig at its NEW place holds exactly what it held at the
+        old place, or exactly its complete new text;
+      * every child's layerconfig holds exactly what it held, or exactly its complete new
+        text (same imports and exports, `base` = the new name);
+      * every other layer's layerconfig holds exactly what it held.
+    No layerconfig is ever empty or truncated.
+    `_partial`: only for the side condition that the layerconfig paths spoken about are not
+    at/below the renamed layer's two automatic export links (`exPaths`; layout assumption). -/
+theorem crash_atomic_rename_partial (cfg : Config) (d : Defs) (oldname newname : Bytes)
+    (childOrder : List Bytes) (l : Layer) (w0 : World) (hl : findLayer d oldname = some l)
+    (hd : ∀ k ∈ d.layers, Placed cfg k)
+    (hu : ∀ a ∈ d.layers, ∀ b ∈ d.layers, a.name = b.name → a = b) :
+    let w := ((renameLayer cfg d oldname newname childOrder).run.run w0).2
+    let l' : Layer := { l with name := newname, layerPath := layerPath cfg newname }
+    (∀ p, (∀ m ∈ exPaths cfg l, Fs.under m p = false) → Fs.get w.fs p = Fs.get w0.fs p) ∨
+    (((∀ m ∈ exPaths cfg l, Fs.under m (layerconfigPath l) = false) →
+      (∀ m ∈ exPaths cfg l, Fs.under m (layerconfigPath l') = false) →
+        Fs.get w.fs (layerconfigPath l') = Fs.get w0.fs (layerconfigPath l) ∨
+        Fs.get w.fs (layerconfigPath l') = some (.file (render (toLayerFile l')))) ∧
+     ∀ k ∈ d.layers, k.name ≠ oldname → (∀ m ∈ exPaths cfg l, Fs.under m (layerconfigPath k) = false) →
+      (k.base = oldname →
+        Fs.get w.fs (layerconfigPath k) = Fs.get w0.fs (layerconfigPath k) ∨
+        Fs.get w.fs (layerconfigPath k) = some (.file (render (toLayerFile { k with base := newname })))) ∧
+      (k.base ≠ oldname → Fs.get w.fs (layerconfigPath k) = Fs.get w0.fs (layerconfigPath k))) :=
+  rename_layers cfg d oldname newname childOrder l w0 hl hd hu
+
+/-- non-vacuity: `rename p q` with two children `c1`, `c2` and an unrelated layer `u`; the
+    hypotheses hold (table placed, names unique, no layerconfig at/below an export link) -/
+def exP : Layer := { name := b!"p", layerPath := b!"/l/p", cmounts := [⟨b!"/dev", b!"/dev", b!"rbind"⟩] }
+def exC1 : Layer := { name := b!"c1", base := b!"p", layerPath := b!"/l/c1", cmounts := [⟨b!"/dev", b!"/dev", b!"rbind"⟩] }
+def exC2 : Layer := { name := b!"c2", base := b!"p", layerPath := b!"/l/c2", cmounts := [⟨b!"/sys", b!"/sys", b!"rbind"⟩] }
+def exU : Layer := { name := b!"u", layerPath := b!"/l/u" }
+def exRenDefs : Defs := { layers := [exP, exC1, exC2, exU], order := [b!"p", b!"c1", b!"c2", b!"u"] }
+def exRenWorld (crash : Option Nat) : World :=
+  { fs := [(b!"/", .dir), (b!"/l", .dir), (b!"/e", .dir),
+           (b!"/l/p", .dir), (b!"/l/p/layerconfig", .file b!"import rbind /dev /dev\n"),
+           (b!"/l/c1", .dir), (b!"/l/c1/layerconfig", .file b!"base p\n\nimport rbind /dev /dev\n"),
+           (b!"/l/c2", .dir), (b!"/l/c2/layerconfig", .file b!"base p\n\nimport rbind /sys /sys\n"),
+           (b!"/l/u", .dir), (b!"/l/u/layerconfig", .file [])],
+    crashAt := crash }
+
+example : findLayer exRenDefs b!"p" = some exP ∧ (∀ k ∈ exRenDefs.layers, Placed exCfg k) ∧
+    (∀ a ∈ exRenDefs.layers, ∀ b ∈ exRenDefs.layers, a.name = b.name → a = b) ∧
+    (∀ k ∈ exRenDefs.layers, ∀ m ∈ exPaths exCfg exP, Fs.under m (layerconfigPath k) = false) ∧
+    (∀ m ∈ exPaths exCfg exP, Fs.under m b!"/l/q/layerconfig" = false) := by
+  unfold Placed; decide
+
+/- the three runs below are evaluated by the kernel (`decide +kernel`: kernel reduction of the
+   `Decidable` instance, no axiom beyond `propext`; the elaborator's `decide` needs minutes) -/
+
+/-- a crash at operation 8 — 1 move `/l/p`→`/l/q`; 2-5 `c1` rewritten (open, two writes,
+    rename); 6 open and 7 first write of `c2`'s temporary file; 8 [crash]: the run ends with
+    the crash; `c1` holds its complete new text, `c2` its complete old text (its temporary
+    file is partial), the renamed layer's layerconfig is found unchanged at the new place and
+    gone from the old one, `u` is untouched -/
+example :
+    let r := (renameLayer exCfg exRenDefs b!"p" b!"q" [b!"c1", b!"c2"]).run.run (exRenWorld (some 8))
+    r.1.toBool = false ∧
+    Fs.get r.2.fs b!"/l/c1/layerconfig" = some (.file b!"base q\n\nimport rbind /dev /dev\n") ∧
+    Fs.get r.2.fs b!"/l/c2/layerconfig" = some (.file b!"base p\n\nimport rbind /sys /sys\n") ∧
+    Fs.get r.2.fs b!"/l/c2/layerconfig.new" = some (.file b!"base q\n\n") ∧
+    Fs.get r.2.fs b!"/l/q/layerconfig" = some (.file b!"import rbind /dev /dev\n") ∧
+    Fs.get r.2.fs b!"/l/p/layerconfig" = none ∧
+    Fs.get r.2.fs b!"/l/u/layerconfig" = some (.file []) := by decide +kernel
+
+/-- a crash at the very first operation (the move): nothing changed; no crash: all new -/
+example :
+    let r := (renameLayer exCfg exRenDefs b!"p" b!"q" [b!"c1", b!"c2"]).run.run (exRenWorld (some 1))
+    r.1.toBool = false ∧ r.2.fs = (exRenWorld (some 1)).fs := by decide +kernel
+
+example :
+    let r := (renameLayer exCfg exRenDefs b!"p" b!"q" [b!"c2", b!"c1"]).run.run (exRenWorld none)
+    r.1.toBool = true ∧
+    Fs.get r.2.fs b!"/l/c1/layerconfig" = some (.file b!"base q\n\nimport rbind /dev /dev\n") ∧
+    Fs.get r.2.fs b!"/l/c2/layerconfig" = some (.file b!"base q\n\nimport rbind /sys /sys\n") ∧
+    Fs.get r.2.fs b!"/l/q/layerconfig" = some (.file b!"import rbind /dev /dev\n") := by decide +kernel
+
+/-! ### what old-or-new per file does NOT give
+
+  `rename` moves the directory first and rewrites the children afterwards, without undoing
+  anything when a later step fails.  Interrupted in between — by a crash or by an ordinary
+  error such as a failed write of one child's temporary file — every layerconfig is a
+  complete version (the theorems above), but the children still name the parent's old name,
+  which no longer exists: `findLayers`, which precedes every command, refuses the table
+  ("inheritance").  Reproduced with the real binary (REPORT.md); not a violation of C11 as
+  worded (each file is complete), recorded here so that nobody reads more into
+  `crash_atomic_rename_partial` than it says. -/
+
+/-- witness (evaluated by the kernel): crash at operation 2, or an injected write error at
+    operation 3, of `rename p q`: the command fails, every child's layerconfig is exactly its
+    previous version, the table loaded before and does not load afterwards -/
+theorem rename_interrupted_dangling_base_witness :
+    ∀ w0 ∈ [exRenWorld (some 2), { exRenWorld none with faultAt := some 3 }],
+      let r := (renameLayer exCfg exRenDefs b!"p" b!"q" [b!"c1", b!"c2"]).run.run w0
+      r.1.toBool = false ∧
+      (∀ k ∈ [exC1, exC2, exU], Fs.get r.2.fs (layerconfigPath k) = Fs.get w0.fs (layerconfigPath k)) ∧
+      Fs.get r.2.fs b!"/l/q/layerconfig" = Fs.get w0.fs b!"/l/p/layerconfig" ∧
+      ((findLayers exCfg).run.run w0).1.toBool = true ∧
+      ((findLayers exCfg).run.run { r.2 with crashAt := none, faultAt := none }).1.toBool = false := by
+  decide +kernel
 
 end Lc.Props.C11
